@@ -213,7 +213,25 @@ def pair(ctx, scen, idx, lines, stats=None, release=False, oracle=None, files_or
         return r
     ctx.disagreements += 1
     if len(ctx.violations) >= 3:
-        return r          # enough replays recorded for this run; further disagreements are only counted
+        # enough replays recorded for this run; further disagreements are only counted - unless none of the recorded ones is a
+        # concrete failing input yet: then the direct oracle (no shrinking) is asked about up to 40 further disagreeing histories
+        if all('no-failing-input-found' in v for v in ctx.violations) and ctx.disagreements <= 43 and not extra_problem:
+            dd = os.path.join(ctx.root, '%s_%s_or' % (scen, idx))
+            verdict = None
+            try:
+                verdict = (oracle or api_oracle)(segments, dd, release)
+            except Exception as e:
+                C.log('oracle failed', e)
+            shutil.rmtree(dd, ignore_errors=True)
+            if verdict:
+                flat = []
+                for si, seg in enumerate(segments):
+                    if len(segments) > 1:
+                        flat.append('# --- process %d ---' % si)
+                    flat += seg
+                ctx.violation('%s_%s' % (scen, idx), 'property %s, scenario %s #%d, seed %s\ncorrespondence Model(Db.step) vs implementation breaks at op %s: `%s`\n  implementation: %s\n  model        : %s\ndirect oracle: %s\nreplay: ./check %s --replay <this file>'
+                              % (ctx.pid, scen, idx, ctx.seed, r.get('index'), str(r.get('op', ''))[:200], str(r.get('impl'))[:300], str(r.get('model'))[:300], verdict, ctx.pid), flat, found=True)
+        return r
     handle_disagreement(ctx, scen, idx, segments, r, extra_problem, release, oracle, op_timeout)
     return r
 
@@ -265,6 +283,26 @@ def api_oracle(segments, workdir, release=False, files=True, op_timeout=20):
                 probs, _ = O.files_ok(p)
                 if probs:
                     return 'independent decoder on %s: %s' % (sub, '; '.join(probs[:4]))
+        # histories of several processes: the files every process leaves when it closes them (not only the last one)
+        if len(segments) > 1:
+            w2 = os.path.join(workdir, 'steps')
+            shutil.rmtree(w2, ignore_errors=True)
+            os.makedirs(w2, exist_ok=True)
+            for si, seg in enumerate(segments[:-1]):
+                sops = [l for l in seg if l.strip() and not l.startswith('#')]
+                f = os.path.join(w2, 'seg%d.ops' % si)
+                C.write_ops(f, seg)
+                _, st = C.run_impl(f, os.path.join(w2, 'impl'), release=release, op_timeout=op_timeout)
+                if st != 'ok' or not sops or 'kill9' in [l.split()[0] for l in sops] or 'closeall' not in [l.split()[0] for l in sops[-3:]]:
+                    break
+                impl2 = os.path.join(w2, 'impl')
+                for sub in sorted(os.listdir(impl2)):
+                    p = os.path.join(impl2, sub)
+                    if os.path.isdir(p):
+                        probs, _ = O.files_ok(p)
+                        if probs:
+                            return 'independent decoder on %s after process %d closed its files: %s' % (sub, si, '; '.join(probs[:4]))
+            shutil.rmtree(w2, ignore_errors=True)
     return None
 
 
@@ -278,7 +316,13 @@ def handle_disagreement(ctx, scen, idx, segments, r, extra_problem, release, ora
         os.makedirs(d, exist_ok=True)
         rr = C.compare_segments([cand], os.path.join(d, 'w%d' % n[0]), release=release, op_timeout=op_timeout)
         shutil.rmtree(os.path.join(d, 'w%d' % n[0]), ignore_errors=True)
-        return not rr['ok']
+        if rr['ok']:
+            return False
+        # the shrunk history must fail the way the original did: at a call of the same kind (else the shrinker slides to
+        # another disagreement - e.g. one it creates itself by cutting out a setup step)
+        k0 = (r.get('op') or '').split()[:1]
+        k1 = (rr.get('op') or '').split()[:1]
+        return not k0 or not k1 or k0 == k1
     small = segments
     if single and not extra_problem and len(segments[0]) <= 4000:
         try:
@@ -288,6 +332,13 @@ def handle_disagreement(ctx, scen, idx, segments, r, extra_problem, release, ora
     os.makedirs(d, exist_ok=True)
     rr = C.compare_segments(small, os.path.join(d, 'wf'), release=release, op_timeout=op_timeout) if not extra_problem else r
     verdict = (oracle or api_oracle)(small, os.path.join(d, 'or'), release)
+    if not verdict and not extra_problem and small != segments:
+        # the shrunk history no longer shows the failure to the direct oracle (the shrinker only keeps the disagreement with the
+        # model): ask it about the history as generated, and report that one when it fails there
+        verdict = (oracle or api_oracle)(segments, os.path.join(d, 'or2'), release)
+        if verdict:
+            small = segments
+            rr = r
     head = ['property %s, scenario %s #%d, seed %s' % (ctx.pid, scen, idx, ctx.seed)]
     if extra_problem:
         head.append(extra_problem)
@@ -432,7 +483,8 @@ def cascade_case(ctx, scen, i):
     lines = ['db d0 db', 'map m0 d0 %s m B1' % kt]
     for j, k in enumerate(keys):
         lines.append('put m0 %s z%dx%d' % (k.hex(), r.choice([1, 5, 13]), j))
-    big = 17000 if (ctx.quick or i % 3) else 2100000
+    # fillers: past 16 KiB (2-byte offset fields), past 128 KiB (an offset stored as offset/8 takes 3 bytes from there on), thorough: 2 MiB
+    big = 140000 if i % 3 == 2 else 17000 if (ctx.quick or i % 3) else 2100000
     if r.random() < 0.5:
         lines.append('put m0 z%dx7 z%dx9' % (big, big))
     else:
@@ -659,12 +711,14 @@ def scen_C09(ctx):
     # occupied neighbours, relocated when an offset field grows past 16 KiB; a 2 MiB value (4-byte length field)
     parallel(lambda i: cascade_case(ctx, 'C09', i), range(ctx.scale(12, 60)))
     parallel(lambda i: huge_case(ctx, 'C09', i, reopen=False), range(ctx.scale(1, 3)), workers=3)
-    if not ctx.quick:
+    if True:
         # values of 4 .. 16 MiB + 1: too large for the list-based model; implementation against the ideal map only (L_api, values
-        # compared by length + checksum), in two processes
+        # compared by length + checksum), in two processes.  16 MiB - 136 / - 135 bytes: the slot reaches 16 MiB and its size
+        # field takes 4 bytes (seeded change C09j: a 4-byte size field was skipped one byte too far by get and delete)
         segs = [['db d0 db', 'map m0 d0 bytes m B8', 'put m0 61 z4194304x1', 'put m0 62 z16777216x2', 'put m0 63 z16777217x3', 'put m0 64 z5x4',
-                 'get m0 61', 'get m0 62', 'get m0 63', 'get m0 64', 'put m0 62 z16777215x5', 'get m0 62', 'del m0 61', 'len m0', 'closeall'],
-                ['db d0 db', 'map m0 d0 bytes m default', 'get m0 62', 'get m0 63', 'get m0 64', 'get m0 61', 'len m0', 'iter m0 keys', 'closeall']]
+                 'put m0 65 z16777080x6', 'put m0 66 z16777081x7', 'get m0 61', 'get m0 62', 'get m0 63', 'get m0 64', 'get m0 65', 'get m0 66',
+                 'put m0 62 z16777215x5', 'get m0 62', 'put m0 65 z16777081x8', 'get m0 65', 'get m0 64', 'del m0 61', 'del m0 66', 'len m0', 'closeall'],
+                ['db d0 db', 'map m0 d0 bytes m default', 'get m0 62', 'get m0 63', 'get m0 64', 'get m0 65', 'get m0 61', 'get m0 66', 'len m0', 'iter m0 keys', 'del m0 63', 'get m0 64', 'closeall']]
         d = os.path.join(ctx.root, 'mib16')
         il, ist = impl_only(segs, d, op_timeout=300)
         ops = [l for seg in segs for l in seg]
@@ -941,6 +995,35 @@ def scen_C02(ctx):
                 segs.append([])         # next session in a new process
         pair(ctx, 'reopen', i, segs, stats=g.stats, files_oracle=True)
     parallel(one, range(ctx.scale(70, 500)))
+
+    # `neighbours`: the directory a map is reopened from holds other maps of the SAME key type whose names are related to its own
+    # (equal up to the last dot, one a prefix of the other, one carrying an extension of the file naming): each is written in its
+    # own session, every handle dropped, and every later session reopens all of them and reads every key, len and a traversal of
+    # each - what was there when its last handle was dropped, nothing of the neighbour's.  (seeded change C02j: the name was
+    # reduced to its file stem before the files were opened - "v1.users" and "v1.orders" shared v1.key/.val/.htx after a reopen)
+    def neighbours(i):
+        g = G.G(ctx.seed, 'C02n', i)
+        r = g.rng
+        kt = G.KTS[i % 5]
+        names = r.choice([['v1.users', 'v1.orders'], ['a.', 'a'], ['m', 'm.key', 'm.val'], ['m.a', 'm.b', 'm.a.b'], ['x.htx', 'x'], ['users.v1', 'users.v2', 'users']])
+        ks = g.key_universe(kt, 6)
+        segs = [[]]
+        written = []
+        for sn, nm in enumerate(names + [names[0]]):
+            cur = segs[-1]
+            cur.append('db d0 db')
+            for j, w in enumerate(written):                           # reopen what earlier sessions left and read it completely
+                cur.append('map r%d d0 %s %s %s' % (j, kt, w, g.params()))
+                cur += ['get r%d %s' % (j, G.hx(k)) for k in ks] + ['len r%d' % j, 'iter r%d %s' % (j, r.choice(FLAVOURS))]
+            cur.append('map m0 d0 %s %s %s' % (kt, nm, g.params()))
+            cur += g.hist(kt, r.randrange(4, 25), keys=ks, big=0.0)
+            cur += ['closeall', 'snap db']
+            if nm not in written:
+                written.append(nm)
+            if r.random() < 0.5:
+                segs.append([])
+        pair(ctx, 'neighbours', i, segs, stats=g.stats, files_oracle=True)
+    parallel(neighbours, range(ctx.scale(12, 80)))
     parallel(lambda i: huge_case(ctx, 'C02', i), range(ctx.scale(2, 6)), workers=4)
     # re-opens at byte level: sessions re-opened with other parameters, every I/O event of the open and of the calls after it
     io_traces(ctx, 0, 0, 0, 0, ctx.scale(24, 200))
@@ -1062,6 +1145,31 @@ def scen_C03(ctx):
             lines += ['db dc%d c%d' % (c, c), 'map mc%d dc%d %s m default' % (c, c, kt)] + ['get mc%d %s' % (c, G.hx(k)) for k in ks] + ['len mc%d' % c, 'closeall']
         pair(ctx, 'handles', i, lines, stats=g.stats)
     parallel(handles, range(ctx.scale(20, 120)))
+
+    # `emptied`: the boundary states of the item count - a map filled with a few keys and emptied again one delete at a time, every
+    # delete followed by a flush/sync that is a crash point (files against the model image, a copy opened and read: len, is_empty,
+    # every key, a traversal); then filled again.  (seeded change C03j: the 1 -> 0 transition of the count never reached the buffer)
+    def emptied(i):
+        g = G.G(ctx.seed, 'C03e', i)
+        kt = G.KTS[i % 5]
+        ks = g.key_universe(kt, g.rng.choice([1, 2, 3, 5]))
+        lines = ['db d0 db', 'map m0 d0 %s m %s' % (kt, g.params(n=g.rng.choice([1, 8, 64])))]
+        ncp = 0
+        for rnd in range(2):
+            for k in ks:
+                lines.append('put m0 %s %s' % (G.hx(k), g.value_token(maxlen=200)))
+            lines += ['%s m0' % g.rng.choice(SY), 'snap db']
+            order = list(ks)
+            g.rng.shuffle(order)
+            for k in order:
+                ncp += 1
+                lines += ['del m0 %s' % G.hx(k), '%s m0' % g.rng.choice(SY), 'len m0', 'empty m0', 'snap db', 'cpdir db c%d' % ncp]
+        lines += ['closeall']
+        for c in range(1, ncp + 1):
+            lines += ['db dc%d c%d' % (c, c), 'map mc%d dc%d %s m default' % (c, c, kt), 'len mc%d' % c, 'empty mc%d' % c] + \
+                     ['get mc%d %s' % (c, G.hx(k)) for k in ks] + ['iter mc%d iter' % c, 'closeall']
+        pair(ctx, 'emptied', i, lines, stats=g.stats)
+    parallel(emptied, range(ctx.scale(10, 60)))
 
 
 SCENARIOS['C03'] = scen_C03
@@ -1318,6 +1426,34 @@ def scen_C07(ctx):
                  'db d0 db', 'map m0 d0 %s m B8,VP1000,KP1000,%s' % (kt, ['HA', 'HS0'][i % 2])] + ['get m0 %s' % G.hx(k) for k in ks] + ['put m0 %s 0707' % G.hx(ks[0]), 'len m0', 'closeall', 'snap db']
         pair(ctx, 'big_table', i, lines, op_timeout=120)
     parallel(bigtable, range(ctx.scale(3, 20)), workers=5)
+
+    # `second_lookup`: parameters given for a map that is ALREADY OPEN in this FileDb (or in a clone of it) are ignored as well: the
+    # lookup returns the one open map.  Updates through the first handle and through the one obtained with other parameters, each
+    # read through the other, then closed, reopened and read.  All five key types.  (seeded change C07j: the with-parameters lookup
+    # of a string map built a second, independent map object over the same three files - two buffered views overwriting each other)
+    def second_lookup(i):
+        g = G.G(ctx.seed, 'C07second', i)
+        r = g.rng
+        kt = G.KTS[i % 5]
+        ks = g.key_universe(kt, 10)
+        lines = ['db d0 db', 'map m0 d0 %s m %s' % (kt, r.choice(CONFIGS))]
+        lines += g.hist(kt, r.randrange(5, 30), keys=ks, big=0.0, reads=0.2)
+        if r.random() < 0.7:
+            lines.append(r.choice(['flush m0', 'syncall m0', 'dbsyncall d0']))
+        if i % 2:
+            lines += ['dbclone d1 d0', 'map m1 d1 %s m %s' % (kt, r.choice(CONFIGS))]
+        else:
+            lines.append('map m1 d0 %s m %s' % (kt, r.choice(CONFIGS)))
+        for rnd in range(r.randrange(2, 6)):
+            w, o = ('m0', 'm1') if rnd % 2 else ('m1', 'm0')
+            lines += g.hist(kt, r.randrange(3, 20), keys=ks, big=0.02, reads=0.1, mid=w)
+            lines += ['get %s %s' % (o, G.hx(k)) for k in r.sample(ks, 4)] + ['len %s' % o, 'len %s' % w]
+            if r.random() < 0.4:
+                lines.append('%s %s' % (r.choice(['flush', 'syncall']), r.choice(['m0', 'm1'])))
+        lines += ['iter m0 iter', 'iter m1 keys', 'closeall', 'snap db', 'db d0 db', 'map m0 d0 %s m %s' % (kt, r.choice(CONFIGS))]
+        lines += ['get m0 %s' % G.hx(k) for k in ks] + ['len m0', 'closeall']
+        pair(ctx, 'second_lookup', i, lines, stats=g.stats, op_timeout=40)
+    parallel(second_lookup, range(ctx.scale(15, 100)))
     io_traces(ctx, ctx.scale(8, 60), ctx.scale(3, 12), 0, 0)
     # L_cache: the model of the buffer cache (Cache.v, proved transparent for >= 2 chunks) against the real rabuf
     import scen_cache as SC
@@ -1562,6 +1698,14 @@ def scen_C11(ctx):
                 lines.append('drop %s' % h)
             elif c < 0.22:
                 lines += ['flush %s' % r.choice(handles[mm]) for mm in range(nm) if handles[mm]] + ['snap db']
+                # one state behind every handle: is_dirty() asked through two handles of one map, back to back, is one answer
+                for mm in range(nm):
+                    if len(handles[mm]) > 1:
+                        a, b = r.sample(handles[mm], 2)
+                        lines += ['dirty %s' % a, 'dirty %s' % b]
+            elif c < 0.25 and len(handles[m]) > 1:
+                a, b = r.sample(handles[m], 2)
+                lines += g.hist(kts[m], 1, keys=keys[m], mid=a, big=0.0, reads=0.0) + ['dirty %s' % a, 'dirty %s' % b]
             else:
                 h = r.choice(handles[m])
                 lines += g.hist(kts[m], 1, keys=keys[m], mid=h, big=0.01)
@@ -1744,6 +1888,36 @@ def scen_C12(ctx):
         lines += ['get m0 %s' % ('v%05d' % L).encode().hex() for L in lens] + ['get m0 z%dx%d' % (L, (L + i) % 200) for L in lens[:5]] + ['len m0', 'iter m0 keys', 'closeall']
         pair(ctx, 'width_boundaries', i, lines, files_oracle=True, op_timeout=120)
     parallel(widths, range(ctx.scale(2, 6)))
+
+    # the header offsets of the free-list heads are part of the format: one head per size class (16 classes and the large list)
+    # in the key file and in the value file.  Records of EVERY size class of both files are stored and deleted (one free slot on
+    # every list), the files compared with the model image (every head at its documented offset), the slots re-used, the files
+    # closed, reopened in a new process and read.  (seeded change C12j: the head of the 768-byte class of the key file was
+    # given the offset of the 640-byte class)
+    def free_list_heads(i):
+        kt = ['bytes', 'string'][i % 2]
+        classes = [16, 24, 32, 48, 64, 80, 96, 112, 128, 256, 384, 512, 640, 768, 896, 1024, 1536, 3072]
+        lens = sorted(set(max(1, s - d) for s in classes for d in (12, 9)))       # two records per size class, in both files
+        keys = ['z%dx%d' % (L, (L + i) % 200) for L in lens]
+        lines = ['db d0 db', 'map m0 d0 %s m B%d' % (kt, [4, 64][i % 2])]
+        lines += ['put m0 61 62']                                        # one entry that stays
+        for k, L in zip(keys, lens):
+            lines.append('put m0 %s z%dx%d' % (k, max(0, L - 2), L % 100))
+        lines += ['len m0', 'snap db']
+        order = list(range(len(keys)))
+        if i >= 2:
+            random.Random('%s/C12fl/%d' % (ctx.seed, i)).shuffle(order)
+        for j in order:
+            lines.append('del m0 %s' % keys[j])
+        lines += ['len m0', 'flush m0', 'snap db', 'closeall', 'snap db']
+        seg2 = ['db d0 db', 'map m0 d0 %s m default' % kt, 'stats m0']
+        for j in reversed(order):
+            if j % 2 == i % 2:                       # one of the two slots of each class is re-used, the other stays on its free list
+                seg2.append('put m0 %s z%dx%d' % (keys[j], max(0, lens[j] - 2), j % 100))
+        seg2 += ['get m0 %s' % k for k in keys] + ['get m0 61', 'len m0', 'stats m0', 'closeall', 'snap db']
+        pair(ctx, 'free_list_heads', i, [lines, seg2], files_oracle=True, op_timeout=60)
+    import random
+    parallel(free_list_heads, range(ctx.scale(2, 8)))
     dn = ['v1.0', 'img.2024', 'a.b.c', 'x.htx', 'users.v1']
     parallel(dotted, list(enumerate([(n, dn[j % len(dn)]) for j, n in enumerate(names[::3] if ctx.quick else names)])))
     # frozen hash vectors
@@ -2059,9 +2233,42 @@ def scen_C16(ctx):
                 'the largest file (so that each of the three files and each chunk is in turn the first refused write), flush/sync_all/sync_data is '
                 'called, the limit is lifted, everything is read back (memory view must equal the ideal map), a second flush must succeed and the '
                 'files must then equal the model image byte for byte; an Ok under the limit must mean the snapshot is complete (checked with a snap '
-                'right after); an error when every file fits below the limit is flagged; `table first`: small key and value files with a 2048/8192-bucket table and a limit between them, so that the table file - the last one written - is the first refused write of flush, sync_all and sync_data each; `db level`: FileDb::sync_all/sync_data over three maps of which one (visited neither first nor last) is refused: the error must be reported, the map stay dirty, and the call succeed after the limit is lifted; L_cache class fault: real rabuf under a file-size limit switched on and off in the middle of random call sequences vs the model Cache_fault.v, line by line (the state a refused call leaves, the file the OS sees, the recovery flush); distinct = distinct (history, threshold) pairs')
+                'right after); an error when every file fits below the limit is flagged; `table first`: small key and value files with a 2048/8192-bucket table and a limit between them, so that the table file - the last one written - is the first refused write of flush, sync_all and sync_data each; `key first`: long keys, one-byte values, a small table and a limit between the value and the key file, so that the key file - the second one written - is the first refused write of each call; `db level`: FileDb::sync_all/sync_data over three maps of which one (visited neither first nor last) is refused: the error must be reported, the map stay dirty, and the call succeed after the limit is lifted; L_cache class fault: real rabuf under a file-size limit switched on and off in the middle of random call sequences vs the model Cache_fault.v, line by line (the state a refused call leaves, the file the OS sees, the recovery flush); distinct = distinct (history, threshold) pairs')
     ladder = [0, 1, 100, 128, 129, 192, 193, 200, 256, 400, 1000, 2000, 4095, 4096, 4097, 5000, 8192, 8193, 12288, 16384, 20000, 40000, 100000,
               131071, 131072, 131073, 200000, 262144, 300000, 1 << 20, 1 << 24]
+
+    SYNCS = ('flush', 'syncall', 'syncdata', 'dbsyncall', 'dbsyncdata')
+    UPD = ('put', 'del', 'bulkput', 'bulkdel', 'putiter', 'putstr', 'delstr', 'bulkdelstr', 'putint', 'delint')
+
+    def c16_oracle(segments, workdir, release=False):
+        """the property statement on the implementation alone: the ideal maps (api_oracle), and: a flush/sync that answers Ok under
+        a file-size limit has made everything durable - the files right after it are already the files after the next successful
+        flush/sync when no update lies between the two (that second call has nothing left to write)."""
+        v = api_oracle(segments, workdir, release)
+        if v:
+            return v
+        il, ist = impl_only(segments, os.path.join(workdir, 'c16'), release)
+        ops = [l for seg in segments for l in seg if l.strip() and not l.startswith('#')]
+        limited, ok_at, snap_then = False, None, None
+        for j, op in enumerate(ops[:len(il)]):
+            k = op.split()[0]
+            if k == 'limit': limited = True
+            elif k == 'unlimit': limited = False
+            elif k in UPD or k in ('closeall', 'map', 'db'):
+                ok_at = snap_then = None
+            elif k in SYNCS:
+                if limited and il[j] == 'ok':
+                    ok_at, snap_then = j, None
+                elif not limited and il[j] == 'ok' and ok_at is not None and snap_then is not None:
+                    nxt = next((x for x in range(j + 1, len(il)) if ops[x].split()[0] == 'snap'), None)
+                    if nxt is not None and il[nxt] != il[snap_then] and not any(ops[x].split()[0] in UPD for x in range(j, nxt)):
+                        return ('op %d `%s` under the file-size limit returned Ok, but the files right after it (op %d: `%s`) are not the files after the '
+                                'next successful `%s` (op %d: `%s`) although no update lies between: the Ok was given before everything was written'
+                                % (ok_at, ops[ok_at], snap_then, il[snap_then][:200], ops[j], nxt, il[nxt][:200]))
+                    ok_at = snap_then = None
+            elif k == 'snap' and ok_at is not None and snap_then is None:
+                snap_then = j
+        return None
 
     def one(a):
         i, h, L = a[:3]
@@ -2084,7 +2291,7 @@ def scen_C16(ctx):
         lines = pre + ['limit %d' % L, '%s m0' % sy, 'dirty m0', 'snap db', 'unlimit'] + ['get m0 %s' % G.hx(k) for k in ks] + ['len m0', 'iter m0 iter',
                  '%s m0' % sy, 'snap db', 'cpdir db c1'] + g.hist(kt, 10, keys=ks, big=0.0) + ['flush m0', 'snap db', 'closeall', 'snap db'] + \
                 ['db dc c1', 'map mc dc %s m default' % kt] + ['get mc %s' % G.hx(k) for k in ks] + ['len mc', 'closeall']
-        r = pair(ctx, 'fault', i, lines, stats=g.stats if i % 4 == 0 else None)
+        r = pair(ctx, 'fault', i, lines, stats=g.stats if i % 4 == 0 else None, oracle=c16_oracle)
         il = r.get('impl_lines') or []
         if r.get('ok') and len(il) == len(lines):
             j = len(pre) + 1
@@ -2125,7 +2332,7 @@ def scen_C16(ctx):
         at = len(lines)
         lines += ['limit 8192', '%s d0' % sy, 'dirty mb', 'unlimit'] + ['get mb %s' % G.hx(k) for k in kb[:6]] + ['get m1 %s' % G.hx(k1[0]), 'get m2 %s' % G.hx(k2[0])]
         lines += ['%s d0' % sy, 'snap db', 'cpdir db c1', 'closeall', 'snap db', 'db dc c1', 'map mc dc %s m_big default' % big_kt] + ['get mc %s' % G.hx(k) for k in kb] + ['len mc', 'closeall']
-        r = pair(ctx, 'db_level', j, lines)
+        r = pair(ctx, 'db_level', j, lines, oracle=c16_oracle)
         il = r.get('impl_lines') or []
         if r.get('ok') and len(il) == len(lines):
             if not il[at + 1].startswith('err'):
@@ -2136,6 +2343,35 @@ def scen_C16(ctx):
             elif il[at + 4 + 8] != 'ok':
                 ctx.violation('db_level_recovery_%d' % j, 'after the limit was lifted %s still returns `%s`' % (sy, il[at + 12]), lines)
     parallel(dblevel, range(ctx.scale(8, 32)))
+
+    # `key first`: long keys and one-byte values under a small table, and a limit between the value file and the key file: the KEY
+    # file - written second - is the first and only refused write of flush, sync_all and sync_data each.  The error must be
+    # reported, the map stay dirty, and the same call succeed and complete the files once the limit is lifted.
+    # (seeded change C16j: the key file's sync_all swallowed every error kind but three - EFBIG was not among them)
+    def keyfirst(j):
+        sy = ['syncall', 'flush', 'syncdata'][j % 3]
+        kt = ['bytes', 'string'][(j // 3) % 2]
+        L = [8192, 20000, 5000, 12288][(j // 3) % 4]
+        nk = 150
+        keys = ['z%dx%d' % (200 + (n * 7 + j) % 90, n) for n in range(nk)]
+        lines = ['db d0 db', 'map m0 d0 %s m B%d' % (kt, [8, 64][j % 2])]
+        lines += ['put m0 %s %02x' % (k, n % 251) for n, k in enumerate(keys)]
+        if j % 4 == 1:
+            lines += ['flush m0'] + ['put m0 %s %02x' % (k, (n + 1) % 251) for n, k in enumerate(keys) if n % 3 == 0] + ['del m0 %s' % keys[1], 'put m0 %s 77' % ('z260x%d' % (nk + 1))]
+        at = len(lines)
+        lines += ['limit %d' % L, '%s m0' % sy, 'dirty m0', 'snap db', 'unlimit'] + ['get m0 %s' % k for k in keys[:8]] + ['len m0']
+        lines += ['%s m0' % sy, 'snap db', 'cpdir db c1', 'closeall', 'snap db', 'db dc c1', 'map mc dc %s m default' % kt] + ['get mc %s' % k for k in keys[::10]] + ['len mc', 'closeall']
+        r = pair(ctx, 'key_first', j, lines, oracle=c16_oracle)
+        il = r.get('impl_lines') or []
+        if r.get('ok') and len(il) == len(lines):
+            if not il[at + 1].startswith('err'):
+                ctx.violation('key_first_report_%d' % j, '%s under a file-size limit of %d bytes returned `%s` although the key file (%d keys of 200..290 bytes, all unwritten) lies '
+                              'beyond the limit; is_dirty = %s' % (sy, L, il[at + 1], nk, il[at + 2]), lines[:at + 4])
+            elif il[at + 2] != 'true':
+                ctx.violation('key_first_flag_%d' % j, '%s failed (`%s`) but the map reports is_dirty() = %s' % (sy, il[at + 1], il[at + 2]), lines[:at + 4])
+            elif il[at + 5 + 8 + 1] != 'ok':
+                ctx.violation('key_first_recovery_%d' % j, 'after the limit was lifted %s still returns `%s`' % (sy, il[at + 14]), lines)
+    parallel(keyfirst, range(ctx.scale(6, 24)))
     for sy in ('flush', 'syncall', 'syncdata'):
         for n, Ls in ((2048, (6000, 12288, 16700)), (8192, (8192, 40000, 66600))):
             for L in (Ls if not ctx.quick else Ls[1:]):
